@@ -58,6 +58,12 @@ LifecycleGenOK.vos LifecycleGenOK.vok LifecycleGenOK.required_vos: LifecycleGenO
 Recipe.vo Recipe.glob Recipe.v.beautified Recipe.required_vo: Recipe.v Base.vo Units.vo Contents.vo Container.vo Dilute.vo Solve.vo Plate.vo Prog.vo
 Recipe.vio: Recipe.v Base.vio Units.vio Contents.vio Container.vio Dilute.vio Solve.vio Plate.vio Prog.vio
 Recipe.vos Recipe.vok Recipe.required_vos: Recipe.v Base.vos Units.vos Contents.vos Container.vos Dilute.vos Solve.vos Plate.vos Prog.vos
+RecipeThm.vo RecipeThm.glob RecipeThm.v.beautified RecipeThm.required_vo: RecipeThm.v Base.vo Units.vo Contents.vo Container.vo Dilute.vo Solve.vo Plate.vo Prog.vo Recipe.vo
+RecipeThm.vio: RecipeThm.v Base.vio Units.vio Contents.vio Container.vio Dilute.vio Solve.vio Plate.vio Prog.vio Recipe.vio
+RecipeThm.vos RecipeThm.vok RecipeThm.required_vos: RecipeThm.v Base.vos Units.vos Contents.vos Container.vos Dilute.vos Solve.vos Plate.vos Prog.vos Recipe.vos
+FlowsThm.vo FlowsThm.glob FlowsThm.v.beautified FlowsThm.required_vo: FlowsThm.v Base.vo Units.vo Contents.vo Container.vo Dilute.vo Solve.vo Plate.vo Prog.vo Recipe.vo RecipeThm.vo
+FlowsThm.vio: FlowsThm.v Base.vio Units.vio Contents.vio Container.vio Dilute.vio Solve.vio Plate.vio Prog.vio Recipe.vio RecipeThm.vio
+FlowsThm.vos FlowsThm.vok FlowsThm.required_vos: FlowsThm.v Base.vos Units.vos Contents.vos Container.vos Dilute.vos Solve.vos Plate.vos Prog.vos Recipe.vos RecipeThm.vos
 ContainerThm2.vo ContainerThm2.glob ContainerThm2.v.beautified ContainerThm2.required_vo: ContainerThm2.v Base.vo Units.vo UnitsThm.vo Contents.vo Container.vo ContainerThm.vo
 ContainerThm2.vio: ContainerThm2.v Base.vio Units.vio UnitsThm.vio Contents.vio Container.vio ContainerThm.vio
 ContainerThm2.vos ContainerThm2.vok ContainerThm2.required_vos: ContainerThm2.v Base.vos Units.vos UnitsThm.vos Contents.vos Container.vos ContainerThm.vos
@@ -97,12 +103,12 @@ Props/C13.vos Props/C13.vok Props/C13.required_vos: Props/C13.v Base.vos Plate.v
 Props/C16.vo Props/C16.glob Props/C16.v.beautified Props/C16.required_vo: Props/C16.v Base.vo GenBase.vo Lifecycle.vo LifecycleThm.vo gen/LifecycleGen.vo LifecycleGenOK.vo
 Props/C16.vio: Props/C16.v Base.vio GenBase.vio Lifecycle.vio LifecycleThm.vio gen/LifecycleGen.vio LifecycleGenOK.vio
 Props/C16.vos Props/C16.vok Props/C16.required_vos: Props/C16.v Base.vos GenBase.vos Lifecycle.vos LifecycleThm.vos gen/LifecycleGen.vos LifecycleGenOK.vos
-Props/C08.vo Props/C08.glob Props/C08.v.beautified Props/C08.required_vo: Props/C08.v Base.vo Recipe.vo
-Props/C08.vio: Props/C08.v Base.vio Recipe.vio
-Props/C08.vos Props/C08.vok Props/C08.required_vos: Props/C08.v Base.vos Recipe.vos
+Props/C08.vo Props/C08.glob Props/C08.v.beautified Props/C08.required_vo: Props/C08.v Base.vo Units.vo Contents.vo Container.vo Dilute.vo Solve.vo Plate.vo Prog.vo Recipe.vo RecipeThm.vo
+Props/C08.vio: Props/C08.v Base.vio Units.vio Contents.vio Container.vio Dilute.vio Solve.vio Plate.vio Prog.vio Recipe.vio RecipeThm.vio
+Props/C08.vos Props/C08.vok Props/C08.required_vos: Props/C08.v Base.vos Units.vos Contents.vos Container.vos Dilute.vos Solve.vos Plate.vos Prog.vos Recipe.vos RecipeThm.vos
 Props/C09.vo Props/C09.glob Props/C09.v.beautified Props/C09.required_vo: Props/C09.v Base.vo Recipe.vo
 Props/C09.vio: Props/C09.v Base.vio Recipe.vio
 Props/C09.vos Props/C09.vok Props/C09.required_vos: Props/C09.v Base.vos Recipe.vos
-Props/C15.vo Props/C15.glob Props/C15.v.beautified Props/C15.required_vo: Props/C15.v Base.vo Recipe.vo
-Props/C15.vio: Props/C15.v Base.vio Recipe.vio
-Props/C15.vos Props/C15.vok Props/C15.required_vos: Props/C15.v Base.vos Recipe.vos
+Props/C15.vo Props/C15.glob Props/C15.v.beautified Props/C15.required_vo: Props/C15.v Base.vo Units.vo Contents.vo Container.vo Dilute.vo Solve.vo Plate.vo Prog.vo Recipe.vo RecipeThm.vo FlowsThm.vo
+Props/C15.vio: Props/C15.v Base.vio Units.vio Contents.vio Container.vio Dilute.vio Solve.vio Plate.vio Prog.vio Recipe.vio RecipeThm.vio FlowsThm.vio
+Props/C15.vos Props/C15.vok Props/C15.required_vos: Props/C15.v Base.vos Units.vos Contents.vos Container.vos Dilute.vos Solve.vos Plate.vos Prog.vos Recipe.vos RecipeThm.vos FlowsThm.vos
